@@ -60,8 +60,22 @@ class DPSKModulator(BaseModulator):
 
     def _create_constellation(self) -> None:
         """Create the DPSK constellation mapping."""
+        # forward() selects constellation[v] for a bit group with integer value v, so point v must
+        # carry the label v. With Gray coding the phase *positions* are Gray ordered: the point
+        # labelled v sits at position p(v) with v = p ^ (p >> 1), so that neighbouring phase shifts
+        # differ in exactly one bit.
+        positions = torch.arange(0, self.order)
+        if self.gray_coding:
+            for value in range(self.order):
+                position = value
+                shift = value >> 1
+                while shift > 0:  # Gray to binary conversion
+                    position ^= shift
+                    shift >>= 1
+                positions[value] = position
+
         # Generate differential phase shifts
-        angles = torch.arange(0, self.order) * (2 * torch.pi / self.order)
+        angles = positions * (2 * torch.pi / self.order)
 
         # For non-gray-coded, rotate constellation to make it different
         if not self.gray_coding:
@@ -72,22 +86,12 @@ class DPSKModulator(BaseModulator):
         im_part = torch.sin(angles)
         constellation = torch.complex(re_part, im_part)
 
-        # Create bit pattern mapping
+        # Create bit pattern mapping: point i is labelled with the binary representation of i
         bit_patterns = torch.zeros(self.order, self._bits_per_symbol)
-
-        if self.gray_coding:
-            # Apply Gray coding
-            for i in range(self.order):
-                gray_idx = i ^ (i >> 1)  # Binary to Gray conversion
-                bin_str = format(gray_idx, f"0{self._bits_per_symbol}b")
-                for j, bit in enumerate(bin_str):
-                    bit_patterns[i, j] = int(bit)
-        else:
-            # Standard binary coding
-            for i in range(self.order):
-                bin_str = format(i, f"0{self._bits_per_symbol}b")
-                for j, bit in enumerate(bin_str):
-                    bit_patterns[i, j] = int(bit)
+        for i in range(self.order):
+            bin_str = format(i, f"0{self._bits_per_symbol}b")
+            for j, bit in enumerate(bin_str):
+                bit_patterns[i, j] = int(bit)
 
         self.register_buffer("constellation", constellation)
         self.register_buffer("bit_patterns", bit_patterns)
